@@ -15,7 +15,10 @@ import os
 
 import numpy as np
 
-TOLD_KINDS = ['array', 'file', 'rodgers_identity', 'array_ppoints', 'file_pcol', 'npoint_nodes', 'isothermal']
+TABLE_COVERS = ['table_inside_both', 'table_inside_below', 'table_inside_above', 'table_beyond']
+TABLE_ROUTES = ['array', 'array_rev', 'file']        # TemperatureArray(p_points), the same top first + reverse=True, TemperatureFile(press_col)
+TOLD_KINDS = ['array', 'file', 'rodgers_identity', 'array_ppoints', 'file_pcol', 'npoint_nodes', 'isothermal'] + \
+             ['%s/%s' % (c, r) for r in TABLE_ROUTES for c in TABLE_COVERS]
 TEMP_KINDS = ['isothermal', 'array', 'array-interp', 'array-ppoints', 'file', 'file-pcol', 'guillot', 'npoint',
               'rodgers', 'rodgers-cov']
 GAS_TYPES = ['constant', 'array', 'twolayer', 'twopoint', 'power']
@@ -49,10 +52,22 @@ def _write_rows(path, rows, header=0, delimiter=' '):
 
 
 # --------------------------------------------------------------------------- binding A
-def told_temperature(kind, T, lay_pa, lev_pa, dirname):
+def told_temperature(kind, T, lay_pa, lev_pa, dirname, nodes=None):
     """The built-in temperature component of the given kind, told the temperature T[k] (K) of every
-    layer; lay_pa / lev_pa are the layer / level pressures the grid of the vector declares (Pa)."""
+    layer; lay_pa / lev_pa are the layer / level pressures the grid of the vector declares (Pa).
+    kind 'table_<cover>/<route>': `nodes` = the (P in Pa, T in K) nodes of the spec's table for that cover, surface first."""
     K = _classes()
+    if kind.startswith('table_'):
+        route = kind.split('/')[1]
+        P, Tn = [float(p) for p, _ in nodes], [float(t) for _, t in nodes]
+        if route == 'array':
+            return K['TemperatureArray'](tp_array=Tn, p_points=P)
+        if route == 'array_rev':
+            return K['TemperatureArray'](tp_array=Tn[::-1], p_points=P[::-1], reverse=True)
+        if route == 'file':
+            path = _write_rows(_tmp(dirname, 'told-table'), [[t, p / 100.0] for p, t in zip(P, Tn)], header=1)
+            return K['TemperatureFile'](filename=path, skiprows=1, temp_col=0, press_col=1, press_units='mbar')
+        raise ValueError(kind)
     T = [float(t) for t in T]
     n = len(T)
     if kind == 'array':
@@ -79,7 +94,7 @@ def told_temperature(kind, T, lay_pa, lev_pa, dirname):
 
 
 # --------------------------------------------------------------------------- binding B: temperature
-def temperature_recipe(kind, rng, n, lmax, lmin, dirname):
+def temperature_recipe(kind, rng, n, lmax, lmin, dirname, cover=None):
     """-> recipe dict(kind, tmax (an upper bound of the temperatures the component can expose, K; None
     for guillot until `finish_guillot`), args...).  lmax / lmin: log10 of the pressure range in Pa."""
     def temps(m):
@@ -113,6 +128,23 @@ def temperature_recipe(kind, rng, n, lmax, lmin, dirname):
         m = rng.randint(2, 6)
         r.update(T=temps(m), P=nodes(m, lmin - 1.0, lmax + 1.0), reverse=(kind == 'array-ppoints' and rng.random() < 0.4),
                  unit=rng.choice(['Pa', 'bar', 'mbar']), header=rng.choice([0, 1, 3]))
+        # where the table lies relative to the grid (own random stream: the draws above stay what they were): as drawn,
+        # strictly inside the grid (the grid reaches beyond it on both sides), or around it (the table reaches beyond the grid)
+        sub = __import__('random').Random(int(abs(math.log10(r['P'][0])) * 1e9) + 7 * m)      # (does not consume from rng)
+        cover = cover or sub.choice(['any', 'any', 'inside', 'inside', 'around'])
+        span = lmax - lmin
+        if cover == 'inside':
+            xs = sorted((sub.uniform(lmin + 0.3 * span, lmax - 0.3 * span) for _ in range(m)), reverse=True)
+        elif cover == 'around':
+            xs = [lmax + sub.uniform(0.2, 1.0)] + sorted((sub.uniform(lmin, lmax) for _ in range(m - 2)), reverse=True) + [lmin - sub.uniform(0.2, 1.0)]
+        if cover != 'any':
+            for j in range(1, m):
+                if xs[j - 1] - xs[j] < 1e-3:
+                    xs[j] = xs[j - 1] - 1e-3
+            r['P'] = [10.0 ** x for x in xs]
+            if r['T'][0] == r['T'][-1]:          # the two ends must differ, or the far end could not be told from the near one
+                r['T'][-1] = r['T'][0] + (150.0 if r['T'][0] < 2800.0 else -150.0)
+        r['cover'] = cover
         r['tmax'] = max(r['T'])
     elif kind == 'file':
         r.update(T=temps(n), header=rng.choice([0, 2]))
